@@ -24,7 +24,7 @@ package sync
 //@   modifies qFrom, qTo
 //@   ensures result1 != nil ==> qFrom == old(qFrom) && qTo == old(qTo)
 //@   ensures result1 == nil ==> qFrom == bigval(q.FromBlock) && qTo == bigval(q.ToBlock) && len(result0) == logsCount(qFrom, qTo) && off(result0) == 0 && seq(result0) == logsIn(qFrom, qTo)
-//@   ensures result1 == nil ==> forall(k, 0, len(result0), len(result0[k].Topics) > 0)
+//@   ensures result1 == nil ==> forall(k, 0, len(result0), len(result0[k].Topics) > 0 && bigval(q.FromBlock) <= result0[k].BlockNumber && result0[k].BlockNumber <= bigval(q.ToBlock))
 
 //@ func (h *RetryHandler) Handle
 //@   trusted
@@ -39,8 +39,10 @@ package sync
 //@   modifies qFrom, qTo
 //@   ensures[one-query-over-exactly-the-requested-range] result != nil ==> qFrom == fromBlock && qTo == toBlock
 //@   ensures[only-logs-of-that-query] forall(k, 0, len(result), exists(j, 0, logsCount(fromBlock, toBlock), result[k] == logsIn(fromBlock, toBlock)[j] && !logsIn(fromBlock, toBlock)[j].Removed))
+//@   ensures[logs-of-the-range] forall(k, 0, len(result), len(result[k].Topics) > 0 && fromBlock <= result[k].BlockNumber && result[k].BlockNumber <= toBlock)
 //@   loop 0 invariant d != nil && d.ethClient != nil && d.log != nil && d.rh != nil && query.FromBlock != nil && query.ToBlock != nil && bigval(query.FromBlock) == fromBlock && bigval(query.ToBlock) == toBlock
 //@   loop 1 invariant qFrom == fromBlock && qTo == toBlock && len(unfilteredLogs) == logsCount(fromBlock, toBlock) && off(unfilteredLogs) == 0 && seq(unfilteredLogs) == logsIn(fromBlock, toBlock) && off(logs) == 0
+//@   loop 1 invariant forall(k, 0, len(unfilteredLogs), len(unfilteredLogs[k].Topics) > 0 && fromBlock <= unfilteredLogs[k].BlockNumber && unfilteredLogs[k].BlockNumber <= toBlock) && forall(k, 0, len(logs), len(logs[k].Topics) > 0 && fromBlock <= logs[k].BlockNumber && logs[k].BlockNumber <= toBlock)
 //@   loop 1 invariant forall(k, 0, len(logs), exists(j, 0, logsCount(fromBlock, toBlock), logs[k] == logsIn(fromBlock, toBlock)[j] && !logsIn(fromBlock, toBlock)[j].Removed))
 
 // ---- the download loop (C05): blocks are scanned for watched events in increasing, gap-free ranges starting at the
@@ -159,3 +161,31 @@ package sync
 //@   loop 1 invariant d != nil && d.log != nil && d.rh != nil && d.processor != nil && d.reorgDetector != nil && d.downloader != nil && d.reorgSub != nil && d.compatibilityChecker != nil
 //@   loop 2 invariant d != nil && d.log != nil && d.rh != nil && d.processor != nil && d.reorgDetector != nil && d.downloader != nil && d.reorgSub != nil && d.compatibilityChecker != nil
 //@   loop 3 invariant d != nil && d.log != nil && d.rh != nil && d.processor != nil && d.reorgDetector != nil && d.downloader != nil && d.reorgSub != nil && d.compatibilityChecker != nil
+
+// ---- grouping the logs of a range into blocks (C05): the blocks handed on are distinct, in strictly increasing order
+// and inside the requested range; a block is only built from a header whose hash equals the hash the log carries
+// (otherwise the whole range is fetched again, at most MaxRetryCountBlockHashMismatch times).
+//@ func (d *EVMDownloaderImplementation) GetBlockHeader
+//@   trusted
+//@   modifies nothing
+//@   ensures !result1 ==> result0.Num == blockNum
+
+// every log appender (the per-topic decoding functions of the syncers) only adds to the block's event list
+//@ interface functype:func(*github.com/agglayer/aggkit/sync.EVMBlock,github.com/ethereum/go-ethereum/core/types.Log)error (b, l)
+//@   requires b != nil
+//@   modifies b.Events
+
+//@ func (d *EVMDownloaderImplementation) getEventsByBlockRangeWithRetry
+//@   props C05
+//@   requires d != nil && d.ethClient != nil && d.log != nil && d.rh != nil && d.appender != nil
+//@   modifies heap, qFrom, qTo
+//@   ensures[blocks-inside-the-range] forall(k, 0, len(result), result[k] != nil && fromBlock <= result[k].Num && result[k].Num <= toBlock)
+//@   ensures[each-block-once-in-increasing-order] forall(k, 0, len(result) - 1, result[k].Num < result[k+1].Num)
+//@   loop 0 invariant d != nil && d.ethClient != nil && d.log != nil && d.rh != nil && d.appender != nil && 0 <= rangeindex + 1 && off(blocks) == 0
+//@   loop 0 invariant forall(k, 0, len(logs), len(logs[k].Topics) > 0 && fromBlock <= logs[k].BlockNumber && logs[k].BlockNumber <= toBlock)
+//@   loop 0 invariant (latestBlock == nil) == (len(blocks) == 0) && (latestBlock != nil ==> latestBlock == blocks[len(blocks) - 1])
+//@   loop 0 invariant forall(k, 0, len(blocks), blocks[k] != nil && fresh(blocks[k]) && fromBlock <= blocks[k].Num && blocks[k].Num <= toBlock)
+//@   loop 0 invariant forall(k, 0, len(blocks) - 1, blocks[k].Num < blocks[k+1].Num)
+//@   loop 1 invariant d != nil && d.log != nil && d.rh != nil && latestBlock != nil && latestBlock == blocks[len(blocks) - 1] && off(blocks) == 0
+//@   loop 1 invariant forall(k, 0, len(blocks), blocks[k] != nil && fresh(blocks[k]) && fromBlock <= blocks[k].Num && blocks[k].Num <= toBlock)
+//@   loop 1 invariant forall(k, 0, len(blocks) - 1, blocks[k].Num < blocks[k+1].Num)
